@@ -656,6 +656,25 @@ static void fixed_cases() {
     }
 }
 
+// C20-4: a trie with an erased entry below its highest id and a container of the documented size
+static void fmc_fixed() {
+    F::Trie t(F::Factors{2, 2});
+    PF k{{0}, {1}};
+    t.insert(k); t.insert(k); t.erase(0);
+    Line l; l << "C20" << "fmc" << "trie"; l.nats(F::Factors{2, 2});
+    l << "ins"; pfTok(l, k); l << (size_t)0; l << "ins"; pfTok(l, k); l << (size_t)1; l << "era" << (size_t)0; l << "|";
+    std::string out = "ok";
+    std::vector<size_t> ids;
+    try {
+        F::FilterMap<size_t, F::Trie> fm(t, std::vector<size_t>{42});
+        auto r = fm.filter(F::Factors{1});
+        for (auto it = r.begin(); it != r.end(); ++it) ids.push_back(it.toContainerId());   // not dereferenced
+    } catch (const std::exception & e) { out = errClass(e); }
+    l << t.size() << out;
+    if (out == "ok") { l << (size_t)1; l.nats(F::Factors{1}); l.nats(ids); } else l << (size_t)0;
+    l.emit();
+}
+
 static int g_perShape = 0, g_random = 0;
 static const int kFixed = 2;   // case 0: probes + ctor, case 1: fixed histories
 
@@ -677,6 +696,7 @@ void verif::verif_case(Rng & rng, long idx, const std::string & tier) {
     }
     if (idx == 1) {
         fixed_cases();
+        fmc_fixed();
         const int rep = tier == "thorough" ? 200 : 40;
         for (int i = 0; i < rep; ++i) indexmap_case(rng);
         for (int i = 0; i < 2 * rep; ++i) skipmap_case(rng);
@@ -701,9 +721,9 @@ void verif::verif_case(Rng & rng, long idx, const std::string & tier) {
     int sub = rsp.empty() ? (int)(k % g_perShape) : (int)rng.below(g_perShape);
     // most histories are short-to-medium; one per shape goes to the limit
     int cap = sub == 0 ? maxOps : (int)rng.range(12, std::max(13, maxOps / 2));
-    if (sub < g_perShape / 2) trie_case(rng, sp, cap);
-    else if (sub < g_perShape - 3) ftrie_case(rng, sp, cap);
-    else if (sub < g_perShape - 1) fmap_trie_case(rng, sp, std::min(cap, 80));
+    if (sub < g_perShape * 9 / 20) trie_case(rng, sp, cap);
+    else if (sub < g_perShape * 16 / 20) ftrie_case(rng, sp, cap);
+    else if (sub < g_perShape * 19 / 20 - 1) fmap_trie_case(rng, sp, std::min(cap, 80));
     else fmap_ftrie_case(rng, sp, std::min(cap, 80));
 }
 
